@@ -258,6 +258,14 @@ def run(ctx):
     if st:
         c20.table_check(ctx, "E5", "section_type", st, S.ELF_SECTION_TYPES, "ElfSectionType", domain=U32, other=(S.ELF_SECTION_RANGES, S.ELF_SECTION_OTHER))
     ctx.note("ElfSection::name()/string_table() dereference an address stored in the tag (external memory): the documented exception of C01; not part of this property's bounds")
+    from . import iters
+    rem_ = fld(deref(arg(1)), itf["remaining_sections"]["i"])
+    cands = (rem_, ("cast", "IntToInt", rem_, "usize"))
+    # size_hint/len report the entries still to be *looked at* (an upper bound of the items to come; not claimed exact: unused
+    # entries are skipped) - checked only for being that counter, so that an override cannot silently change iteration
+    iters.check_overrides(ctx, F, "E2", "ElfSectionIter", verified={"size_hint": iters.size_hint_is(F, cands)})
+    # the extent of the section bytes themselves (sections = [20, size)) is C05's premise for this kind
+    ctx.import_prop("C05", only=lambda o: "ElfSectionsTag" in o.key, label="ElfSectionsTag")
     return ctx.finish(
         "other",
         "Premises of the cursor lemma decided on MIR: the two facts established by sections() (headers fit, string-table index in range) with "
